@@ -89,6 +89,7 @@ type State struct {
 	ghost    map[string]Value
 	groups   map[string]bool
 	sharedMax, onceDepth, lockDepth int
+	lateGlobals [][2]int
 	accesses []Access // C17
 	thread   int
 	locks    []string
@@ -161,6 +162,7 @@ func (st *State) clone(newID int) *State {
 	for k, v := range st.groups {
 		n.groups[k] = v
 	}
+	n.lateGlobals = append([][2]int(nil), st.lateGlobals...)
 	n.inputs = append([]InputRec(nil), st.inputs...)
 	n.reached = append([]string(nil), st.reached...)
 	n.observed = append([]string(nil), st.observed...)
@@ -608,4 +610,16 @@ func quickDecide(c *Term) (bool, bool) {
 		}
 	}
 	return false, false
+}
+
+func (st *State) isShared(obj int) bool {
+	if obj <= st.sharedMax {
+		return true
+	}
+	for _, r := range st.lateGlobals {
+		if obj >= r[0] && obj <= r[1] {
+			return true
+		}
+	}
+	return false
 }
